@@ -228,11 +228,21 @@ static void solver_case(CaseCtx& c)
     cfg.rel_tol = -1; // no norm decides anything
     cfg.with_exact = false;
     cfg.thread_reduction = rng.pick({1.0, 0.7, 0.5});
+    // half of the cases run the convergence-check path as well (residual norms incl. the extrapolated residual, exact
+    // errors): an unreachable relative tolerance keeps the number of cycles fixed, the recorded histories become outputs
+    const bool with_statistics = rng.coin(0.5);
+    if (with_statistics) {
+        cfg.rel_tol = 1e-300;
+        cfg.norm = rng.range(0, 2);
+        cfg.with_exact = true;
+    }
     cfg.describe(c.obs.params);
-    c.obs.params.str("kind", "solver");
+    c.obs.params.str("kind", "solver").b("with_statistics", with_statistics);
     c.announce("solver");
     JObj hashes;
     Vector<double> base;
+    std::vector<double> base_stat;
+    size_t base_nres = 0;
     int min_delivered = 1 << 30;
     for (int T : TS) {
         min_delivered = std::min(min_delivered, delivered_threads(T) - T);
@@ -244,6 +254,35 @@ static void solver_case(CaseCtx& c)
         g->solve();
         Vector<double> u = g->solution();
         hashes.str("solution@T" + std::to_string(T), hex(hash_vec(u)));
+        std::vector<double> stat;
+        if (with_statistics) {
+            for (double v : GMGPolarVerifAccess::residual_norms(*g))
+                stat.push_back(v);
+            const size_t nres = stat.size();
+            for (auto& e : GMGPolarVerifAccess::exact_errors(*g)) {
+                stat.push_back(e.first);
+                stat.push_back(e.second);
+            }
+            stat.push_back(g->meanResidualReductionFactor());
+            Vector<double> sv((int)stat.size());
+            for (size_t k = 0; k < stat.size(); k++)
+                sv[(int)k] = stat[k];
+            hashes.str("statistics@T" + std::to_string(T), hex(hash_vec(sv)));
+            if (T == 1) {
+                base_stat = stat;
+                base_nres = nres;
+            }
+            else {
+                double worst = (stat.size() == base_stat.size()) ? 0.0 : 1.0;
+                // (the reduction factor, last entry, is a root of a ratio that may sit on the rounding floor: hashed only)
+                for (size_t k = 0; k + 1 < stat.size() && k + 1 < base_stat.size(); k++) {
+                    // residual norms relative to the initial one, errors relative to the first recorded pair, factor absolute
+                    double ref = k < base_nres ? base_stat[0] : base_stat[base_nres + (k - base_nres) % 2];
+                    worst = std::max(worst, std::fabs(stat[k] - base_stat[k]) / std::max(std::fabs(ref), 1e-300));
+                }
+                c.obs.check("thread_count_statistics", worst, std::string(cfg.strategy ? "give" : "take") + "/T" + std::to_string(T));
+            }
+        }
         if (T == 1) {
             base = u;
             continue;
